@@ -4,6 +4,13 @@ Families follow the property's quantifier: random dense, symmetric, triangular, 
 prescribed real / complex-pair spectra, rotation blocks, repeated eigenvalues (diagonalisable and
 defective), graded (1e-6..1e6), zero / identity, plus near-symmetric (one ulp off), cyclic shifts
 (the exceptional-shift path of hqr2) and Hessenberg inputs; n = 1..12; three storage classes.
+Round 2 (driven by the branch counters of the kernels, see BRANCHES / props/C06.coverage.md): direct sums
+and block-triangular compositions of all families, shifted cyclic blocks (single and repeated, c != 0),
+defective and nearly defective matrices (Jordan blocks, nilpotent lower Jordan blocks, clustered
+diagonals, sparse integer triangular), adjacent complex pairs with bit-identical imaginary parts,
+reducible / strongly graded symmetric tridiagonal forms, sparse symmetric patterns, and a
+permutation-similar variant of each.  Every decomposition is followed by `trace` (branch counters and the
+records of the bookkeeping steps, replayed by the model).
 All randomness comes from random.Random(seed)."""
 import random, struct, math, re
 
@@ -300,6 +307,421 @@ def fam_weakcoupled(rng, n):
     return a
 
 
+# ---------------------------------------------------------------- round-2 families (compositions)
+def blockdiag(blocks):
+    n = sum(len(b) for b in blocks)
+    a = [[0.0] * n for _ in range(n)]
+    o = 0
+    for b in blocks:
+        k = len(b)
+        for i in range(k):
+            for j in range(k):
+                a[o + i][o + j] = b[i][j]
+        o += k
+    return a
+
+
+def split_sizes(rng, n, parts, least=1):
+    """n = k1 + .. + kp with every ki >= least (fewer parts when n is too small)"""
+    parts = max(1, min(parts, n // least if least else parts))
+    ks = [least] * parts
+    for _ in range(n - least * parts):
+        ks[rng.randrange(parts)] += 1
+    return ks
+
+
+def couple_upper(rng, a, ks, density=0.7, small=False):
+    """fill the blocks above the block diagonal (sizes ks) with coupling entries"""
+    starts = [sum(ks[:i]) for i in range(len(ks))]
+    blk = []
+    for b, k in enumerate(ks):
+        blk += [b] * k
+    n = len(a)
+    for i in range(n):
+        for j in range(n):
+            if blk[j] > blk[i] and rng.random() < density:
+                a[i][j] = dy(rng, 3, 16) if small else rng.choice([dy(rng), rng.uniform(-1, 1), 1.0, -0.5])
+    return a
+
+
+def cyc_block(k, c, s=1.0):
+    """c I + s P, P the cyclic shift of size k (the companion matrix of x^k - 1)"""
+    a = [[0.0] * k for _ in range(k)]
+    for i in range(k):
+        a[i][i] += c
+        a[i][(i + 1) % k] += s
+    return a
+
+
+NONSYM_PARTS = None     # filled below (needs the family functions)
+SYM_PARTS = None
+
+
+def fam_dsum(rng, n):
+    """direct sum of blocks drawn from all the families (non-symmetric unless every block is)"""
+    ks = split_sizes(rng, n, rng.choice([2, 2, 3]))
+    blocks = [rng.choice(NONSYM_PARTS)(rng, k) for k in ks]
+    return blockdiag(blocks)
+
+
+def fam_btri(rng, n):
+    """block upper / lower triangular composition of the families with dense or sparse coupling"""
+    ks = split_sizes(rng, n, rng.choice([2, 2, 3]))
+    blocks = [rng.choice(NONSYM_PARTS)(rng, k) for k in ks]
+    a = couple_upper(rng, blockdiag(blocks), ks, rng.choice([0.2, 0.7, 1.0]))
+    return a if rng.random() < 0.6 else transpose(a)
+
+
+def fam_symdsum(rng, n):
+    """reducible symmetric matrices: direct sums of symmetric blocks (dense, tridiagonal, graded,
+    weakly coupled, diagonal), a coupled pair followed / preceded by isolated diagonal entries"""
+    k = rng.random()
+    if k < 0.3 and n >= 3:
+        # pair + isolated entries
+        a = [[0.0] * n for _ in range(n)]
+        for i in range(n):
+            a[i][i] = dy(rng) if rng.random() < 0.6 else rng.uniform(-3, 3)
+        p = rng.randrange(0, n - 1)
+        a[p][p + 1] = a[p + 1][p] = rng.choice([1.0, dy(rng, 3, 16) or 0.5, rng.uniform(-2, 2)])
+        if rng.random() < 0.4 and n >= 5:
+            q = rng.choice([x for x in range(0, n - 1) if abs(x - p) >= 2])
+            a[q][q + 1] = a[q + 1][q] = rng.uniform(-2, 2)
+        return a
+    ks = split_sizes(rng, n, rng.choice([2, 2, 3, 4]))
+    return blockdiag([rng.choice(SYM_PARTS)(rng, kk) for kk in ks])
+
+
+def sym_tridiag(rng, n):
+    a = [[0.0] * n for _ in range(n)]
+    for i in range(n):
+        a[i][i] = rng.choice([dy(rng), rng.uniform(-2, 2), 2.0])
+        if i + 1 < n:
+            a[i][i + 1] = a[i + 1][i] = rng.choice([dy(rng) or 1.0, rng.uniform(-2, 2), -1.0])
+    return a
+
+
+def sym_graded(rng, n):
+    """strongly graded symmetric (dense or tridiagonal): entries sqrt(g_i g_j) b_ij, g spanning up to
+    1e-6..1e6 — the coupling of the tridiagonal form falls below eps * tst1 inside the matrix"""
+    span = rng.choice([6.0, 9.0, 12.0])
+    g = [10.0 ** (-span / 2 + span * i / max(1, n - 1)) for i in range(n)]
+    if rng.random() < 0.5:
+        g.reverse()
+    tri = rng.random() < 0.4
+    a = [[0.0] * n for _ in range(n)]
+    for i in range(n):
+        for j in range(i, n):
+            if tri and j - i > 1:
+                continue
+            a[i][j] = a[j][i] = math.sqrt(g[i]) * rng.uniform(-1, 1) * math.sqrt(g[j])
+    return a
+
+
+def fam_redtridiag(rng, n):
+    """reducible / nearly reducible symmetric tridiagonal forms: direct sums of tridiagonal blocks, zero
+    and negligible (1e-17 .. 1e-20 relative) couplings strictly inside, strongly graded"""
+    k = rng.random()
+    if k < 0.35:
+        return sym_graded(rng, n)
+    a = sym_tridiag(rng, n)
+    if n >= 3:
+        for _ in range(rng.choice([1, 1, 2])):
+            i = rng.randrange(0, n - 1)
+            v = 0.0 if rng.random() < 0.6 else rng.choice([1e-17, 1e-18, 1e-20, -1e-19])
+            a[i][i + 1] = a[i + 1][i] = v
+    return a
+
+
+def fam_sparsesym(rng, n):
+    """sparse, exactly representable symmetric patterns on which a Householder step of tred2 meets an
+    exactly zero sub-row after an earlier non-trivial step: X-shaped (diagonal + anti-diagonal),
+    second-neighbour coupling (two interleaved chains), random 0/1 patterns, arrow matrices,
+    adjacency-like matrices with an interleaved isolated 2x2 block"""
+    k = rng.randrange(6)
+    a = [[0.0] * n for _ in range(n)]
+    if k == 0:      # X-shaped
+        for i in range(n):
+            a[i][i] = float(rng.randint(-3, 3))
+            a[i][n - 1 - i] = a[n - 1 - i][i] = float(rng.choice([1, 2, -1])) if i != n - 1 - i else a[i][i]
+    elif k == 1:    # second-neighbour coupling
+        for i in range(n):
+            a[i][i] = float(rng.randint(-2, 2))
+            if i + 2 < n:
+                a[i][i + 2] = a[i + 2][i] = float(rng.choice([1, 1, 2, -1]))
+    elif k == 2:    # random sparse 0/1 (sometimes with a small integer diagonal)
+        dens = rng.choice([0.15, 0.25, 0.4])
+        for i in range(n):
+            if rng.random() < 0.5:
+                a[i][i] = float(rng.randint(-2, 2))
+            for j in range(i + 1, n):
+                if rng.random() < dens:
+                    a[i][j] = a[j][i] = 1.0
+    elif k == 3:    # arrow: diagonal + last (or first) row/column
+        r = n - 1 if rng.random() < 0.5 else 0
+        for i in range(n):
+            a[i][i] = float(rng.randint(-3, 3))
+            if i != r and rng.random() < 0.8:
+                a[i][r] = a[r][i] = float(rng.choice([1, -1, 2]))
+    elif k == 4:    # a chain with an interleaved isolated 2x2 block
+        idx = list(range(n))
+        if n >= 4:
+            p, q = sorted(rng.sample(range(n), 2))
+            rest = [i for i in idx if i not in (p, q)]
+            a[p][q] = a[q][p] = 1.0
+            for u, v in zip(rest, rest[1:]):
+                a[u][v] = a[v][u] = 1.0
+        for i in range(n):
+            a[i][i] = float(rng.randint(-1, 1))
+    else:           # sparse with dyadic weights
+        for i in range(n):
+            a[i][i] = dy(rng, 2, 8)
+            for j in range(i + 1, n):
+                if rng.random() < 0.2:
+                    a[i][j] = a[j][i] = dy(rng, 2, 8)
+    return a
+
+
+def fam_shiftcyc(rng, n):
+    """shifted cyclic blocks c I + s P (P = companion matrix of x^k - 1): the QR iteration of hqr2
+    stagnates on them and takes its exceptional shifts; one block, or two / three blocks of size >= 3
+    with non-zero c on the diagonal of a block-diagonal or block-triangular matrix (several exceptional
+    shifts in ONE decomposition: the running total `exshift` matters)"""
+    cs = [0.5, 1.0, 1.5, -0.75, 2.0, 0.25, -1.0, 3.0]
+    if n < 6 or rng.random() < 0.25:
+        a = cyc_block(n, rng.choice(cs + [0.0]), rng.choice([1.0, 1.0, 2.0, -0.5])) if n >= 2 else [[dy(rng)]]
+        if n >= 3 and rng.random() < 0.3:
+            a = transpose(a)
+        return a
+    parts = 3 if (n >= 9 and rng.random() < 0.4) else 2
+    ks = split_sizes(rng, n, parts, 3)
+    blocks = []
+    for kk in ks:
+        b = cyc_block(kk, rng.choice(cs), rng.choice([1.0, 1.0, 1.0, 2.0, -0.5]))
+        if rng.random() < 0.2:
+            b = transpose(b)
+        blocks.append(b)
+    a = blockdiag(blocks)
+    r = rng.random()
+    if r < 0.4:
+        a = couple_upper(rng, a, ks, rng.choice([0.3, 1.0]))
+    elif r < 0.5:
+        a = transpose(couple_upper(rng, a, ks, 0.5))
+    return a
+
+
+def fam_defective(rng, n):
+    """defective and nearly defective matrices: upper / lower Jordan blocks (also nilpotent ones and
+    direct sums of them), triangular matrices whose diagonal entries are repeated or 1e-9 .. 1e-14 apart,
+    sparse lower triangular small-integer matrices (hqr2 reaches its second exceptional shift, iter == 30)"""
+    k = rng.random()
+    a = [[0.0] * n for _ in range(n)]
+    if k < 0.08 and n >= 3:
+        # a nilpotent (or singular) lower Jordan block of size >= 3 next to a diagonal / triangular rest
+        # (the trailing diagonal entry of the Hessenberg form is exactly 0: the shift x = H(n,n) is 0)
+        kk = rng.randint(3, n)
+        off = rng.choice([1.0, -1.0, 0.5, 3.0, 2.0])
+        o = rng.choice([0, n - kk])
+        for t in range(kk - 1):
+            a[o + t + 1][o + t] = off
+        for i in range(n):
+            if not (o <= i < o + kk):
+                a[i][i] = rng.choice([1.0, -1.0, 2.0, dy(rng, 2, 12)])
+                for j in range(i):
+                    if not (o <= j < o + kk) and rng.random() < 0.4:
+                        a[i][j] = float(rng.choice([-1, 1]))
+        if n == kk and rng.random() < 0.3:
+            a[0][0] = rng.choice([1.0, -1.0])
+        return a
+    if k < 0.3 and n >= 3:
+        # multiple roots in Hessenberg form: the QR iteration converges only linearly on a defective
+        # eigenvalue, 30 iterations pass without a deflation and hqr2 takes its second exceptional shift
+        # (iter == 30).  Companion matrices of (x - a)^k (x - b)^(n-k), and L J L^-1 for a Jordan matrix J
+        if n >= 6 and rng.random() < 0.65:
+            # (x^2 - r^2)^k times a few simple roots: k-fold roots r and -r
+            kk = rng.randint(3, n // 2)
+            r0 = rng.choice([1.0, 0.5, 2.0, 1.5, 0.75, 3.0])
+            extra = [rng.choice([0.0, 2.5, -0.5, 0.0]) for _ in range(n - 2 * kk)]
+            c = companion(poly_from_roots([r0] * kk + [-r0] * kk + extra, []))
+            return c if rng.random() < 0.6 else transpose(c)
+        if rng.random() < 0.3:
+            kk = rng.randint(1, n - 1)
+            ra, rb = rng.choice([(1.0, -1.0), (0.5, -1.0), (2.0, 1.0), (1.0, 0.5)])
+            c = companion(poly_from_roots([ra] * kk + [rb] * (n - kk), []))
+            return c if rng.random() < 0.7 else transpose(c)
+        lam = rng.choice([1.0, 0.5, -1.0, 2.0, 0.0])
+        for i in range(n):
+            a[i][i] = lam
+            if i + 1 < n:
+                a[i][i + 1] = 1.0
+        L, Li = unit_lower(rng, n)
+        return matmul(matmul(L, a), Li)
+    if k < 0.4:
+        # Jordan blocks, upper or lower, eigenvalues from a small set (0 included)
+        lower = rng.random() < 0.5
+        i = 0
+        while i < n:
+            kk = min(n - i, rng.choice([1, 2, 3, 4, n]))
+            lam = rng.choice([0.0, 0.0, 1.0, -1.0, 0.5, 2.0, dy(rng, 2, 12)])
+            off = rng.choice([1.0, 1.0, -1.0, 0.5])
+            for t in range(kk):
+                a[i + t][i + t] = lam
+                if t + 1 < kk:
+                    if lower:
+                        a[i + t + 1][i + t] = off
+                    else:
+                        a[i + t][i + t + 1] = off
+            i += kk
+        return a
+    if k < 0.6:
+        # triangular, diagonal entries repeated or nearly repeated
+        base = [dy(rng, 2, 12) for _ in range(max(1, n // 2))]
+        up = rng.random() < 0.6
+        for i in range(n):
+            v = rng.choice(base)
+            if rng.random() < 0.5:
+                v = v + rng.choice([1e-9, 1e-10, 1e-12, 1e-14, -1e-11]) * (1.0 + abs(v))
+            a[i][i] = v
+            for j in range(n):
+                if (j > i) == up and j != i and rng.random() < 0.7:
+                    a[i][j] = rng.choice([dy(rng), rng.uniform(-2, 2), 1.0])
+        return a
+    if k < 0.85:
+        # sparse lower triangular with entries in {-1, 0, 1}
+        z = rng.choice([0.5, 0.6, 0.75])
+        for i in range(n):
+            for j in range(i + 1):
+                if rng.random() > z:
+                    a[i][j] = float(rng.choice([-1, 1]))
+        if all(a[i][j] == a[j][i] for i in range(n) for j in range(n)) and n > 1:
+            a[n - 1][0] = 1.0
+        return a
+    # small integer Hessenberg / companion matrices
+    if rng.random() < 0.5:
+        c = [float(rng.randint(-2, 2)) for _ in range(n)]
+        for j in range(n):
+            a[0][j] = c[j]
+        for i in range(1, n):
+            a[i][i - 1] = 1.0
+    else:
+        a = [[float(rng.randint(-2, 2)) if j >= i - 1 else 0.0 for j in range(n)] for i in range(n)]
+    return a
+
+
+def fam_eqpairs(rng, n):
+    """adjacent complex-conjugate pairs with bit-identical imaginary parts: rotation blocks with a common
+    angle, blocks [a_k -b; b a_k] with a common b (real parts equal or not), the real representation
+    [aI -bI; bI aI] of a complex scalar matrix; decoupled, coupled above the blocks (defective complex
+    pairs when the blocks are identical), a real eigenvalue before / after / never between them"""
+    m = n // 2
+    if m == 0:
+        return [[dy(rng)]]
+    k = rng.random()
+    dyadic = rng.random() < 0.6
+    b = (abs(dy(rng, 3, 16)) + 0.125) if dyadic else rng.uniform(0.2, 2.0)
+    if k < 0.25 and n % 2 == 0:
+        # real representation of (a + i b) I_m
+        a0 = dy(rng, 3, 16) if dyadic else rng.uniform(-1.5, 1.5)
+        a = [[0.0] * n for _ in range(n)]
+        for i in range(m):
+            a[i][i] = a0; a[m + i][m + i] = a0
+            a[i][m + i] = -b; a[m + i][i] = b
+        return a
+    blocks = []
+    same_re = rng.random() < 0.5
+    a0 = dy(rng, 3, 16) if dyadic else rng.uniform(-1.5, 1.5)
+    if k < 0.5:
+        # common angle: r_k (cos t, sin t) with r_k = 1 (bit-identical blocks) or the same block repeated
+        th = rng.uniform(0.1, 3.0)
+        c0, s0 = math.cos(th), math.sin(th)
+        for _ in range(m):
+            blocks.append([[c0, -s0], [s0, c0]])
+    else:
+        for _ in range(m):
+            ak = a0 if same_re else (dy(rng, 3, 16) if dyadic else rng.uniform(-1.5, 1.5))
+            sg = 1.0 if rng.random() < 0.8 else -1.0
+            blocks.append([[ak, -sg * b], [sg * b, ak]])
+    ks = [2] * m
+    if n % 2 == 1:
+        one = [[dy(rng, 3, 16)]]
+        if rng.random() < 0.5:
+            blocks.append(one); ks.append(1)
+        else:
+            blocks.insert(0, one); ks.insert(0, 1)
+    a = blockdiag(blocks)
+    r = rng.random()
+    if r < 0.45:
+        a = couple_upper(rng, a, ks, rng.choice([0.3, 0.8, 1.0]), small=dyadic)
+    elif r < 0.55:
+        a = transpose(couple_upper(rng, a, ks, 0.5, small=dyadic))
+    return a
+
+
+def fam_skew(rng, n):
+    """skew-symmetric matrices (dense, tridiagonal, sparse) and matrices with an identically zero diagonal
+    built from quarter-turn blocks [[0, -b], [b, 0]]: their diagonal stays zero under orthogonal
+    similarities, so hqr2 works with the shift x = H(n,n) = 0 throughout (fixed finding: the unrepaired
+    double QR step skipped every sweep with x == 0 and did not terminate)"""
+    k = rng.random()
+    a = [[0.0] * n for _ in range(n)]
+    if k < 0.6:
+        tri = rng.random() < 0.4
+        dens = rng.choice([0.4, 0.7, 1.0])
+        for i in range(n):
+            for j in range(i + 1, n):
+                if (tri and j - i > 1) or rng.random() > dens:
+                    continue
+                v = rng.choice([1.0, -1.0, 2.0, dy(rng, 3, 16), rng.uniform(-2, 2)])
+                a[i][j] = v; a[j][i] = -v
+        if rng.random() < 0.25 and n > 1:
+            a[rng.randrange(n)][rng.randrange(n)] += dy(rng, 3, 8)     # one entry off skew-symmetry
+        return a
+    # quarter-turn blocks, possibly repeated, with coupling and isolated real eigenvalues, permuted
+    blocks = []
+    r = n
+    bs = [rng.choice([1.0, 1.375, 0.5, 2.0]) for _ in range(2)]
+    while r > 0:
+        if r >= 2 and rng.random() < 0.65:
+            b = rng.choice(bs) * rng.choice([1, -1])
+            blocks.append([[0.0, -b], [b, 0.0]]); r -= 2
+        else:
+            blocks.append([[rng.choice([0.0, 0.0, 0.375, 1.5, -1.0])]]); r -= 1
+    ks = [len(b) for b in blocks]
+    a = blockdiag(blocks)
+    if rng.random() < 0.7:
+        a = couple_upper(rng, a, ks, rng.choice([0.3, 0.6]))
+    return perm_similarity(rng, a)
+
+
+def fam_slowconv(rng, n):
+    """matrices on which the QR iteration of hqr2 goes 30 iterations without a deflation (its second,
+    'MATLAB' exceptional shift): companion matrices of (x^2 - r^2)^k q(x) (k-fold roots r and -r),
+    L J L^-1 for a Jordan block J, identical complex pairs with coupling"""
+    a = [[0.0] * n for _ in range(n)]
+    k = rng.random()
+    if n >= 6 and k < 0.5:
+        kk = rng.randint(3, n // 2)
+        r0 = rng.choice([1.0, 0.5, 2.0, 1.5, 0.75, 3.0])
+        extra = [rng.choice([0.0, 2.5, -0.5, 0.0]) for _ in range(n - 2 * kk)]
+        c = companion(poly_from_roots([r0] * kk + [-r0] * kk + extra, []))
+        return c if rng.random() < 0.6 else transpose(c)
+    if n >= 3 and k < 0.7:
+        lam = rng.choice([1.0, 0.5, -1.0, 2.0, 0.0])
+        for i in range(n):
+            a[i][i] = lam
+            if i + 1 < n:
+                a[i][i + 1] = 1.0
+        L, Li = unit_lower(rng, n)
+        return matmul(matmul(L, a), Li)
+    return perm_similarity(rng, fam_eqpairs(rng, n)) if rng.random() < 0.5 else fam_skew(rng, n)
+
+
+def permuted(fn):
+    """a permutation-similar variant P^T A P of the family (symmetry is preserved)"""
+    def g(rng, n):
+        return perm_similarity(rng, fn(rng, n))
+    return g
+
+
 def rescaled(fn):
     """the same family under an overall scaling 10^k, k in -6..6 (half of the time)"""
     def g(rng, n):
@@ -318,7 +740,25 @@ FAMILIES = [("dense", fam_dense, 3), ("symmetric", fam_symmetric, 3), ("triangul
             ("skewblock", fam_skewblock, 2), ("weakcoupled", fam_weakcoupled, 1),
             ("scaleddense", rescaled(fam_dense), 1), ("scaledrepeated", rescaled(fam_repeated), 1),
             ("scaledtriangular", rescaled(fam_triangular), 1), ("scaledsymmetric", rescaled(fam_symmetric), 1),
-            ("scaledweakcoupled", rescaled(fam_weakcoupled), 1)]
+            ("scaledweakcoupled", rescaled(fam_weakcoupled), 1),
+            # round 2: compositions and the structures the kernels' rare branches need
+            ("dsum", fam_dsum, 2), ("btri", fam_btri, 2), ("symdsum", fam_symdsum, 2),
+            ("redtridiag", fam_redtridiag, 2), ("sparsesym", fam_sparsesym, 2),
+            ("shiftcyc", fam_shiftcyc, 2), ("defective", fam_defective, 2), ("eqpairs", fam_eqpairs, 2),
+            ("permdsum", permuted(fam_dsum), 1), ("permbtri", permuted(fam_btri), 1),
+            ("permsymdsum", permuted(fam_symdsum), 1), ("permredtridiag", permuted(fam_redtridiag), 1),
+            ("permsparsesym", permuted(fam_sparsesym), 1), ("permshiftcyc", permuted(fam_shiftcyc), 1),
+            ("permdefective", permuted(fam_defective), 1), ("permeqpairs", permuted(fam_eqpairs), 1),
+            ("scaledshiftcyc", rescaled(fam_shiftcyc), 1), ("scaledeqpairs", rescaled(fam_eqpairs), 1),
+            ("skew", fam_skew, 2), ("scaledskew", rescaled(fam_skew), 1), ("slowconv", fam_slowconv, 2)]
+
+# the blocks of the compositions: every family above (the symmetric ones are listed separately: a direct
+# sum is symmetric iff all its blocks are)
+SYM_PARTS = [fam_symmetric, fam_symmetric, sym_tridiag, sym_tridiag, sym_graded, fam_weakcoupled, fam_sparsesym,
+             lambda rng, n: [[(dy(rng) if i == j else 0.0) for j in range(n)] for i in range(n)]]
+NONSYM_PARTS = [fam_dense, fam_symmetric, fam_triangular, fam_companion, fam_rotation, fam_repeated, fam_graded,
+                fam_trivial, fam_cyclic, fam_hessenberg, fam_skewblock, fam_shiftcyc, fam_defective, fam_eqpairs,
+                sym_tridiag, fam_sparsesym, fam_skew]
 
 
 # matrices on which pow / exp are in the property's scope: diagonalisable with real spectrum
@@ -414,15 +854,15 @@ def generate(seed, tier):
             n = pick_n(rng)
             st = STORAGE[k % 3]; k += 1
             a = fn(rng, n)
-            ops = [mat_line(a), "eig", "getD"]
+            ops = [mat_line(a), "eig", "trace", "getD"]
             if rng.random() < 0.12:
                 ops.append("getD")      # getD is idempotent (D_ is a mutable cache)
             cases.append(["case %s-%d-%d %s" % (name, n, i, st)] + ops)
     # every size for the two main routes, every storage class
     for n in range(1, 13):
         for st in STORAGE:
-            cases.append(["case dense-%d-all %s" % (n, st), mat_line(fam_dense(rng, n)), "eig", "getD"])
-            cases.append(["case symmetric-%d-all %s" % (n, st), mat_line(fam_symmetric(rng, n)), "eig", "getD"])
+            cases.append(["case dense-%d-all %s" % (n, st), mat_line(fam_dense(rng, n)), "eig", "trace", "getD"])
+            cases.append(["case symmetric-%d-all %s" % (n, st), mat_line(fam_symmetric(rng, n)), "eig", "trace", "getD"])
     # 3. pow / exp on diagonalisable matrices with real spectrum; dimension check on non-square input
     ng = 2000 if big else 200
     for i in range(ng):
@@ -501,6 +941,8 @@ def compare(op_line, impl, model):
         if x == x and x > s[1]:
             s[1] = x
     it = impl.split()
+    if op == "trace":
+        return it == vals
     if op == "eig":
         # only the symmetry flag is modelled; the lists and V are explored by the driver's predicates
         return bool(it) and bool(vals) and it[0] == vals[0]
@@ -533,10 +975,107 @@ def _constants():
     return out
 
 
+# ---------------------------------------------------------------- branch coverage (guarded counters)
+# k -> (routine, condition, reachable-when-false, reachable-when-true); `None` = this outcome has no counter
+# (the counter sits inside the branch); a string = why the outcome cannot occur inside the quantifier.
+BRANCHES = {
+    0: ("tred2", "scale == 0.0 (row already zero left of the diagonal)", True, True),
+    1: ("tred2", "f > 0 (sign of the Householder vector)", True, True),
+    2: ("tred2", "h != 0.0 (accumulation: non-trivial reflector)", True, True),
+    3: ("tred2", "scale == 0.0 and the updated lower row differs from the stale upper column", True, True),
+    5: ("tql2", "m > l (iterate)", True, True),
+    6: ("tql2", "m > l and the tridiagonal form splits strictly inside (m < n-1)", True, True),
+    7: ("tql2", "p < 0 (sign of hypot)", True, True),
+    8: ("tql2", "|e[l]| > eps*tst1 (another pass of the do-loop)", True, True),
+    9: ("tql2", "sort: d[j] < p", True, True),
+    10: ("tql2", "sort: k != i (swap)", True, True),
+    11: ("orthes", "scale != 0.0", True, True),
+    12: ("orthes", "ort[m] > 0", True, True),
+    13: ("orthes", "accumulation: H(m,m-1) != 0.0", True, True),
+    14: ("cdiv", "|yr| > |yi| (calls from hqr2)", True, True),
+    15: ("hqr2", "s == 0.0 (s = norm)", True, True),
+    16: ("hqr2", "small sub-diagonal element found", True, True),
+    17: ("hqr2", "one root found", None, True),
+    18: ("hqr2", "two roots found", None, True),
+    19: ("hqr2", "two roots: q >= 0 (real pair)", True, True),
+    20: ("hqr2", "two roots: p >= 0", True, True),
+    21: ("hqr2", "two roots: z != 0.0", True, True),
+    22: ("hqr2", "no convergence yet (a QR sweep)", None, True),
+    23: ("hqr2", "iter == 10 (Wilkinson's exceptional shift)", None, True),
+    24: ("hqr2", "iter == 30 (MATLAB's exceptional shift)", True, True),
+    25: ("hqr2", "iter == 30: s > 0", True, True),
+    26: ("hqr2", "iter == 30: y < x", True, True),
+    27: ("hqr2", "two consecutive small: m == l", True, True),
+    28: ("hqr2", "two consecutive small: m--", None, True),
+    29: ("hqr2", "two consecutive small: test satisfied (break)", None, True),
+    30: ("hqr2", "double QR step: k != m", True, True),
+    31: ("hqr2", "double QR step: x != 0.0 (k != m)", True, True),
+    32: ("hqr2", "double QR step: k != m and x == 0.0 (break)", True, True),
+    33: ("hqr2", "double QR step: p < 0", True, True),
+    34: ("hqr2", "double QR step: s != 0", "s = sqrt(p^2+q^2+r^2) of a vector normalised to |p|+|q|+|r| = 1 (or NaN): never 0", True),
+    35: ("hqr2", "double QR step: k == m and l != m", True, True),
+    36: ("hqr2", "double QR step: notlast", True, True),
+    37: ("hqr2", "norm == 0.0 (return before back-substitution)", True, "a non-symmetric matrix has a non-zero entry; its Hessenberg form is orthogonally similar"),
+    38: ("hqr2", "back-substitution: q == 0 (real vector)", True, True),
+    39: ("hqr2", "back-substitution: q < 0 (complex vector)", None, True),
+    40: ("hqr2", "back-substitution: q > 0 (first member of a pair: skipped)", True, True),
+    41: ("hqr2", "real vector: e[i] < 0", True, True),
+    42: ("hqr2", "real vector: e[i] == 0", True, True),
+    43: ("hqr2", "real vector: w != 0.0", True, True),
+    44: ("hqr2", "real vector, 2x2 block: |x| > |z|", True, True),
+    45: ("hqr2", "real vector: overflow control", None, True),
+    46: ("hqr2", "complex vector: |H(n,n-1)| > |H(n-1,n)|", True, True),
+    47: ("hqr2", "complex vector: e[i] < 0", True, True),
+    48: ("hqr2", "complex vector: e[i] == 0", True, True),
+    49: ("hqr2", "complex vector, 2x2 block: vr == 0 and vi == 0", True, True),
+    50: ("hqr2", "complex vector, 2x2 block: |x| > |z| + |q|", True, True),
+    51: ("hqr2", "complex vector: overflow control", True, True),
+    53: ("constructor", "issymmetric_ (dispatch to tred2+tql2)", True, True),
+}
+# branches of the anchored code without a counter: dead code, stated here so that the table is complete
+DEAD = [
+    ("tql2", "while (m < n_) leaves by its condition", "e[n-1] == 0.0 always satisfies the break test first"),
+    ("orthes", "n_ == 0", "n >= 1 in the quantifier"),
+    ("hqr2", "(i < low) || (i > high) (twice: roots isolated by balanc, vectors of isolated roots)", "low = 0, high = n-1: the port has no balancing"),
+    ("hqr2", "l < n after 'No convergence yet'", "l <= n-2 there"),
+    ("hqr2", "while (m >= l) leaves by its condition", "m == l breaks first"),
+    ("constructor", "n_ > INT_MAX", "n <= 12"),
+]
+
+
+def _parse_trace(r):
+    """(hits dict index -> count, log as list of floats) of a `trace` answer"""
+    segs = r.split(";")
+    hits = {}
+    for t in segs[0].split()[1:]:
+        k, v = t.split(":")
+        hits[int(k)] = int(v)
+    log = [struct.unpack("<d", struct.pack("<Q", int(x, 16)))[0] if x != "nan" else float("nan") for x in segs[1].split()] if len(segs) > 1 else []
+    recs = []
+    j = 0
+    while j + 1 < len(log):
+        code, ln = int(log[j]), int(log[j + 1])
+        recs.append((code, log[j + 2:j + 2 + ln]))
+        j += 2 + ln
+    return hits, recs
+
+
 def coverage_extra(cases, answers):
     fam, sizes, storage = {}, {}, {}
     routes = {"symmetric(tred2+tql2)": 0, "nonsymmetric(orthes+hqr2)": 0}
     pairs = 0; realonly = 0
+    hit_total, hit_decs, hit_fams = {}, {}, {}
+    ex_hist = {}
+    derived = {"hqr2: >= 2 exceptional shifts in one decomposition": 0,
+               "hqr2: >= 2 exceptional shifts, the first one non-zero (a later deflation needs the running total)": 0,
+               "hqr2: a deflation after an exceptional shift with exshift != 0": 0,
+               "tql2: a shift with eigenvalues beyond the split (m < n-1)": 0,
+               "tql2: sort swaps a column": 0,
+               "getD: row with e > 0": 0, "getD: row with e < 0": 0, "getD: row with e == 0": 0,
+               "getD: adjacent conjugate pairs with bit-identical imaginary parts": 0,
+               "pow/exp: dimension check raises": 0, "pow/exp: dimension check passes": 0,
+               "cdiv (direct, tied bit for bit): |yr| > |yi|": 0, "cdiv (direct): |yr| <= |yi|": 0}
+    traced = 0
     for c, a in zip(cases, answers):
         head = c[0].split()
         tag = head[1].split("-")[0]
@@ -552,13 +1091,131 @@ def coverage_extra(cases, answers):
                 routes["symmetric(tred2+tql2)" if r[0] == "1" else "nonsymmetric(orthes+hqr2)"] += 1
                 segs = r.split(";")
                 if len(segs) == 4:
-                    if any(t not in ("0000000000000000", "8000000000000000") for t in segs[2].split()):
+                    es = segs[2].split()
+                    if any(t not in ("0000000000000000", "8000000000000000") for t in es):
                         pairs += 1
                     else:
                         realonly += 1
+                    pos = [i for i, t in enumerate(es) if t not in ("0000000000000000", "8000000000000000") and t[0] in "01234567"]
+                    derived["getD: row with e > 0"] += len(pos)
+                    derived["getD: row with e < 0"] += sum(1 for t in es if t[0] in "89abcdef" and t != "8000000000000000")
+                    derived["getD: row with e == 0"] += sum(1 for t in es if t in ("0000000000000000", "8000000000000000"))
+                    derived["getD: adjacent conjugate pairs with bit-identical imaginary parts"] += sum(
+                        1 for i in pos if i + 2 in pos and es[i] == es[i + 2])
+            if l.split()[0] in ("pow", "exp") and r:
+                derived["pow/exp: dimension check raises" if r.startswith("exc:dimension") else "pow/exp: dimension check passes"] += 1
+            if l.startswith("cdiv ") and r:
+                t = l.split()
+                try:
+                    yr, yi = (struct.unpack("<d", struct.pack("<Q", int(x, 16)))[0] for x in t[3:5])
+                    derived["cdiv (direct, tied bit for bit): |yr| > |yi|" if abs(yr) > abs(yi) else "cdiv (direct): |yr| <= |yi|"] += 1
+                except ValueError:
+                    pass
+            if l == "trace" and r and r.startswith("hits"):
+                traced += 1
+                try:
+                    hits, recs = _parse_trace(r)
+                except (ValueError, struct.error):
+                    continue
+                for k, v in hits.items():
+                    hit_total[k] = hit_total.get(k, 0) + v
+                    hit_decs[k] = hit_decs.get(k, 0) + 1
+                    hit_fams.setdefault(k, {})
+                    hit_fams[k][tag] = hit_fams[k].get(tag, 0) + 1
+                ex = [p[1] if code == 4 else p[4] for code, p in recs if code in (4, 5)]
+                ex_hist[len(ex)] = ex_hist.get(len(ex), 0) + 1
+                if len(ex) >= 2:
+                    derived["hqr2: >= 2 exceptional shifts in one decomposition"] += 1
+                    if ex[0] != 0.0:
+                        derived["hqr2: >= 2 exceptional shifts, the first one non-zero (a later deflation needs the running total)"] += 1
+                if any(code in (6, 7) and (p[2] if code == 6 else p[5]) != 0.0 for code, p in recs):
+                    derived["hqr2: a deflation after an exceptional shift with exshift != 0"] += 1
+                if hits.get(2 * 6 + 1):
+                    derived["tql2: a shift with eigenvalues beyond the split (m < n-1)"] += 1
+                if hits.get(2 * 10 + 1):
+                    derived["tql2: sort swaps a column"] += 1
+    branches = {}
+    per_routine = {}
+    for k, (routine, cond, rf, rt) in sorted(BRANCHES.items()):
+        for o, reach in ((0, rf), (1, rt)):
+            if reach is None:
+                continue
+            idx = 2 * k + o
+            name = "%s: %s -> %s" % (routine, cond, "true" if o else "false")
+            ent = {"hits": hit_total.get(idx, 0), "decompositions": hit_decs.get(idx, 0)}
+            if isinstance(reach, str):
+                ent["unreachable"] = reach
+            else:
+                top = sorted(hit_fams.get(idx, {}).items(), key=lambda kv: -kv[1])[:3]
+                ent["top_families"] = dict(top)
+            branches[name] = ent
+            pr = per_routine.setdefault(routine, {"reachable_outcomes": 0, "executed": 0, "executed_in_at_least_5_decompositions": 0, "unreachable_outcomes": 0})
+            if isinstance(reach, str):
+                pr["unreachable_outcomes"] += 1
+            else:
+                pr["reachable_outcomes"] += 1
+                pr["executed"] += 1 if ent["hits"] else 0
+                pr["executed_in_at_least_5_decompositions"] += 1 if ent["decompositions"] >= 5 else 0
     return {
         "families": fam, "matrix_sizes": dict(sorted(sizes.items(), key=lambda kv: int(kv[0]))), "storage_classes": storage,
         "routes": routes, "decompositions_with_complex_pairs": pairs, "decompositions_real_spectrum": realonly,
+        "branch_coverage_per_routine": per_routine,
+        "branch_coverage": branches,
+        "branch_coverage_dead_code": [{"routine": r, "branch": b, "why": w} for r, b, w in DEAD],
+        "branch_coverage_derived_conditions": derived,
+        "exceptional_shifts_per_decomposition": {str(k): v for k, v in sorted(ex_hist.items())},
+        "decompositions_traced": traced,
         "explored_bounds_observed_max": {k: {"evaluations": v[0], "max_in_units_of_bound_without_constant": v[1]} for k, v in sorted(STATS.items())},
         "explored_bounds_constants": _constants(),
     }
+
+
+def write_coverage_md(paths, out):
+    """props/C06.coverage.md from evidence files (one per tier): python3 gens/C06.py coverage <quick.json> <thorough.json>"""
+    import json
+    evs = [json.load(open(p)) for p in paths]
+    L = ["# C06 — branch coverage of the iteration kernels by the generated matrix families", "",
+         "Counters: guarded instrumentation of `EigenValue.h` (`BPP_EIGENVALUE_VERIF_BR/HIT`, hook commit in",
+         "`props/hooks.d/C06.json`), read back by the harness op `trace` after every decomposition of the",
+         "generated families. `hits` = executions of the outcome, `decs` = decompositions in which it occurred.",
+         "Written by `python3 gens/C06.py coverage <evidence files>` from real runs (seed %s)." % ", ".join(str(e["seed"]) for e in evs), ""]
+    L.append("## Per routine")
+    L.append("")
+    L.append("| routine | reachable outcomes | " + " | ".join("%s: executed / in >= 5 decompositions" % e["tier"] for e in evs) + " | unreachable |")
+    L.append("|---|---|" + "---|" * len(evs) + "---|")
+    routines = list(evs[0]["coverage"]["branch_coverage_per_routine"].keys())
+    for r in routines:
+        row = [r, str(evs[0]["coverage"]["branch_coverage_per_routine"][r]["reachable_outcomes"])]
+        for e in evs:
+            pr = e["coverage"]["branch_coverage_per_routine"][r]
+            row.append("%d / %d" % (pr["executed"], pr["executed_in_at_least_5_decompositions"]))
+        row.append(str(evs[0]["coverage"]["branch_coverage_per_routine"][r]["unreachable_outcomes"]))
+        L.append("| " + " | ".join(row) + " |")
+    L += ["", "## Every branch outcome", "",
+          "| branch outcome | " + " | ".join("%s hits / decs" % e["tier"] for e in evs) + " | families (quick) / why unreachable |",
+          "|---|" + "---|" * len(evs) + "---|"]
+    for name, ent in evs[0]["coverage"]["branch_coverage"].items():
+        row = [name.replace("|", "\\|")]
+        for e in evs:
+            x = e["coverage"]["branch_coverage"][name]
+            row.append("%d / %d" % (x["hits"], x["decompositions"]))
+        row.append(("unreachable: " + ent["unreachable"]) if "unreachable" in ent else ", ".join("%s %d" % kv for kv in ent.get("top_families", {}).items()))
+        L.append("| " + " | ".join(row) + " |")
+    L += ["", "## Conditions beyond single branches (what the seeded changes needed)", "",
+          "| condition | " + " | ".join(e["tier"] for e in evs) + " |", "|---|" + "---|" * len(evs)]
+    for name in evs[0]["coverage"]["branch_coverage_derived_conditions"]:
+        L.append("| " + name.replace("|", "\\|") + " | " + " | ".join(str(e["coverage"]["branch_coverage_derived_conditions"][name]) for e in evs) + " |")
+    L += ["", "Exceptional shifts per decomposition (count -> decompositions): " +
+          "; ".join("%s: %s" % (e["tier"], e["coverage"]["exceptional_shifts_per_decomposition"]) for e in evs), "",
+          "## Branches without a counter (dead code in this port)", ""]
+    for d in evs[0]["coverage"]["branch_coverage_dead_code"]:
+        L.append("* `%s`: %s — %s" % (d["routine"], d["branch"], d["why"]))
+    L += ["", "`getD`, the symmetry dispatch, `cdiv` and the `pow`/`exp` wrappers are transcribed in the model and tied",
+          "bit for bit; their branch outcomes are counted from the answers (table above).", ""]
+    open(out, "w").write("\n".join(L))
+
+
+if __name__ == "__main__":
+    import sys, os
+    if len(sys.argv) >= 3 and sys.argv[1] == "coverage":
+        write_coverage_md(sys.argv[2:], os.path.join(os.path.dirname(os.path.dirname(os.path.abspath(__file__))), "props", "C06.coverage.md"))
